@@ -48,6 +48,17 @@ class C15(Check):
             dict(base, kind="corner:default-set", include=None, world_spec={"files": [f1, f2, {"path": "requirements.txt", "manifest": 0}]}),
             dict(base, kind="corner:default-exclude-list", include=None, exclude=["pixee:python/secure-random"], world_spec={"files": [f1, f2]}),
             dict(base, kind="corner:wildcard", include=["pixee:python/fix-*"], world_spec={"files": [f1, f2]}),
+        ]
+        # every SAST codemod of each origin once, with one finding each (identifiers / detection tool per registered codemod)
+        for origin in ("sonar", "semgrep", "defectdojo"):
+            cids, files = [], []
+            for cid in G.ids(origin=origin):
+                r = next((x for x in W.triggering(cid) if G.is_plain_snippet(x)), None)
+                if r is not None:
+                    cids.append(cid)
+                    files.append({"path": f"pkg/{origin}_{len(files)}.py", "snippets": [r["idx"]], "layout": {}})
+            exps.append(dict(base, kind="corner:sast-registry-walk", include=cids, world_spec={"files": files}))
+        exps += [
             # overlapping selections: a codemod matched by two patterns is one executed codemod
             dict(base, kind="corner:overlapping-patterns", include=["pixee:python/fix-*", "pixee:python/fix-mutable-params"], world_spec={"files": [f1, f2]}),
             dict(base, kind="corner:overlapping-patterns", include=["pixee:python/remove-unnecessary-f-str", "pixee:python/remove-*"], world_spec={"files": [f1, f2]}),
